@@ -33,6 +33,7 @@ type Profile struct {
 	TrackPay     bool           `json:"trackPayloads"`
 	Generic      bool           `json:"generic"`      // drive the generic API (static component types at ids 0..12)
 	RandListener bool           `json:"randListener"` // random subscription masks / component restrictions
+	RetargetPct  int            `json:"retargetPct"`  // chance per step of the "target dies, id recycled, child re-targeted" plan
 	DispatchPct  int            `json:"dispatchPct"`  // share of worlds with a listener.Dispatch
 }
 
@@ -49,6 +50,8 @@ type generator struct {
 	focus bool
 	// pending steps of a generic filter life cycle (see "gfilter")
 	gplan []Op
+	// pending steps of a directed plan, played back to back
+	plan []Op
 	// number of raw copies into pointer columns seen so far (hook counter); an increase triggers MoveStress
 	rawSeen int64
 }
@@ -223,6 +226,30 @@ func (g *generator) recycledTargets() (res []int) {
 		}
 	}
 	return res
+}
+
+// targetFor draws a target for an operation on entity ref: if ref currently points to a dead target whose id has been
+// recycled, the recycler is preferred (same id, other generation: where comparisons by id alone go wrong).
+func (g *generator) targetFor(ref int, faulty bool) (res int) {
+	defer func() {
+		if recover() != nil {
+			res = g.target(faulty)
+		}
+	}()
+	if !faulty && g.pct(60) {
+		m := g.maskOf(ref)
+		if rel := g.relOf(m); rel >= 0 {
+			t := g.x.w.Relations().Get(g.x.issued[ref], g.x.idOf(rel))
+			if !t.IsZero() && !g.x.w.Alive(t) {
+				for _, r := range g.aliveRefs() {
+					if g.x.issued[r].ID() == t.ID() {
+						return r
+					}
+				}
+			}
+		}
+	}
+	return g.target(faulty)
 }
 
 // target draws a relation target reference: mostly alive or zero; dead when faulty.
@@ -408,9 +435,20 @@ func (g *generator) nextInner() Op {
 			return Op{Op: "MoveStress", N: 4000}
 		}
 	}
+	if len(g.plan) > 0 {
+		op := g.plan[0]
+		g.plan = g.plan[1:]
+		return op
+	}
 	alive := g.aliveRefs()
 	dead := g.deadRefs()
 	faulty := g.pct(g.p.FaultPct)
+	if !g.p.Generic && g.p.Twin == "" && !g.locked() && g.pct(g.p.RetargetPct) {
+		if plan := g.retargetPlan(alive); len(plan) > 0 {
+			g.plan = plan[1:]
+			return plan[0]
+		}
+	}
 	weights := g.p.Weights
 	if g.ss != nil && g.ss.b != nil && g.p.Twin == "load" && g.p.WeightsB != nil {
 		weights = g.p.WeightsB
@@ -649,7 +687,7 @@ func (g *generator) nextInner() Op {
 					op.Api = "Builder.Add"
 					if newRel >= 0 && g.pct(70) {
 						op.HasRel, op.Rel, op.HasTgt = true, newRel, true
-						op.Tgt = g.target(faulty && g.pct(50))
+						op.Tgt = g.targetFor(ref, faulty && g.pct(50))
 					}
 				}
 			case len(add) == 0 && g.pct(40):
@@ -657,7 +695,7 @@ func (g *generator) nextInner() Op {
 			case newRel >= 0 && g.pct(50):
 				op.Api = "Relations.Exchange"
 				op.HasRel, op.Rel, op.HasTgt = true, newRel, true
-				op.Tgt = g.target(faulty && g.pct(50))
+				op.Tgt = g.targetFor(ref, faulty && g.pct(50))
 			case faulty && g.pct(30):
 				// relation call on a missing / non-relation component
 				op.Api = "Relations.Exchange"
@@ -737,7 +775,7 @@ func (g *generator) nextInner() Op {
 				continue
 			}
 			ref := g.pick(cands)
-			t := g.target(false)
+			t := g.targetFor(ref, false)
 			if g.pct(10) {
 				t = ref // self target
 			}
@@ -1524,4 +1562,65 @@ func (g *generator) playCard(alive []int) (Op, bool) {
 	}
 	deckPos++
 	return Op{}, false
+}
+
+// retargetPlan: a child c of an alive target t; t dies (c keeps the dead target), the next creation recycles t's id
+// (LIFO free list), then c is re-targeted to the recycler - same id, other generation - by an operation that keeps
+// the relation component: Relations.Exchange adding or removing another component, Relations.Set, or a batch form.
+func (g *generator) retargetPlan(alive []int) (plan []Op) {
+	defer func() {
+		if recover() != nil {
+			plan = nil
+		}
+	}()
+	type cand struct{ c, t, rel int }
+	cands := []cand{}
+	for _, c := range alive {
+		m := g.maskOf(c)
+		rel := g.relOf(m)
+		if rel < 0 {
+			continue
+		}
+		t := g.x.w.Relations().Get(g.x.issued[c], g.x.idOf(rel))
+		if t.IsZero() || !g.x.w.Alive(t) || t == g.x.issued[c] {
+			continue
+		}
+		for _, r := range alive {
+			if g.x.issued[r] == t {
+				cands = append(cands, cand{c, r, rel})
+				break
+			}
+		}
+	}
+	if len(cands) == 0 {
+		return nil
+	}
+	k := cands[g.rng.Intn(len(cands))]
+	p2 := len(g.x.issued) // reference of the entity created next
+	mask := g.maskOf(k.c)
+	absent := []int{}
+	for _, x := range g.nons {
+		if !contains(mask, x) {
+			absent = append(absent, x)
+		}
+	}
+	present := []int{}
+	for _, x := range mask {
+		if !contains(g.rels, x) {
+			present = append(present, x)
+		}
+	}
+	plan = []Op{{Op: "RemoveEntity", E: k.t}, {Op: "NewEntity", Api: "World.NewEntity", Ids: g.subset(g.nons, 1)}}
+	var last Op
+	switch r := g.rng.Intn(10); {
+	case r < 4 && len(absent) > 0:
+		last = Op{Op: "Exchange", Api: "Relations.Exchange", E: k.c, Add: []int{g.pick(absent)}, Rem: []int{}, HasRel: true, Rel: k.rel, HasTgt: true, Tgt: p2}
+	case r < 7 && len(present) > 0:
+		last = Op{Op: "Exchange", Api: "Relations.Exchange", E: k.c, Add: []int{}, Rem: []int{g.pick(present)}, HasRel: true, Rel: k.rel, HasTgt: true, Tgt: p2}
+	case r < 9:
+		last = Op{Op: "SetRelation", E: k.c, Rel: k.rel, Tgt: p2}
+	default:
+		last = Op{Op: "BatchSetRelation", Api: "Batch.SetRelation", F: &FSpec{K: "all", Ids: []int{k.rel}, Tgt: -1}, Rel: k.rel, Tgt: p2}
+	}
+	return append(plan, last)
 }
